@@ -100,6 +100,10 @@ impl Monitor for C05 {
         let nt = rng.below(13); let nu = rng.below(13);
         let mut tl = std_lines(rng, &t, nt, &dct);
         let mut ul = std_lines(rng, &u, nu, &dcu);
+        // blank and foreign lines on either side: rows only where a DEFAULT makes them rows (then they pair like any other row)
+        for lines in [&mut tl, &mut ul] {
+            if rng.chance(1, 4) { for _ in 0..(1 + rng.below(3)) { let at = rng.below(lines.len() + 1); lines.insert(at, rng.pick(&["", "", " ", "garbage", "{}"]).to_string()); } }
+        }
         // repeated log lines: rows that are equal in every column must still be paired once each
         for lines in [&mut tl, &mut ul] {
             if !lines.is_empty() && rng.chance(1, 2) { for _ in 0..(1 + rng.below(3)) { let l = lines[rng.below(lines.len())].clone(); let at = rng.below(lines.len() + 1); lines.insert(at, l); } }
@@ -136,7 +140,9 @@ impl Monitor for C05 {
         json!({"kind": "join", "tables": format!("{} {}", t.spec.text(), u.spec.text()), "t_table": t.spec.text().replace("CREATE TABLE t ", "CREATE TABLE t "), "u_table": u.spec.text().replace("CREATE TABLE u ", "CREATE TABLE t "),
                "j_table": jspec.text(), "stmt": s.text(Paren::Full), "stmt_j": sj.text(Paren::Full), "t_lines": tl, "u_lines": ul, "key": key, "outer": outer,
                "t_cols": t.schema.cols.iter().map(|(n, _)| n.clone()).collect::<Vec<_>>(), "u_cols": u.schema.cols.iter().map(|(n, _)| n.clone()).collect::<Vec<_>>(),
-               "fault": match rng.below(12) { 0 => "missing-file", 1 => "missing-table", 2 => "missing-joined-column", 3 => "missing-joiner-column", _ => "none" }})
+               "fault": match rng.below(12) { 0 => "missing-file", 1 => "missing-table", 2 => "missing-joined-column", 3 => "missing-joiner-column", _ => "none" },
+               // the faulty statement sometimes carries a LIMIT (0: no row can be produced - the fault is an error all the same)
+               "fault_limit": match rng.below(4) { 0 => json!(0), 1 => json!(rng.below(3) + 1), _ => J::Null }})
     }
 
     fn check(&self, case: &J, obs: &mut Obs) -> Verdict {
@@ -160,6 +166,7 @@ impl Monitor for C05 {
                 "missing-joined-column" => sql = sql.replace(&format!("u . {}", key), "u . nosuchcolumn"),
                 _ => sql = sql.replace(&format!("= t . {}", key), "= t . nosuchcolumn").replace(&format!("ON t . {} =", key), "ON t . nosuchcolumn ="),
             }
+            if let Some(n) = case["fault_limit"].as_u64() { { if !sql.contains(" LIMIT ") { sql = format!("{} LIMIT {}", sql, n); obs.hit(&format!("fault-with-limit:{}", n.min(1))); } } }
             let res = eng::parse(&sql).and_then(|st| eng::exec_batch(&tables, &st, &tl));
             cleanup();
             // rows of t that pass extraction must exist for the joiner-side column to be looked at
@@ -168,7 +175,7 @@ impl Monitor for C05 {
             return match res {
                 Err(eng::EngErr::Err(_)) => Verdict::Held,
                 Err(eng::EngErr::Panic(p)) => Verdict::Violated(vec![Violation::new(format!("join|{}|panic:{}", fault, p.class()), p.describe())]),
-                Ok(out) => if fault == "missing-joiner-column" && !any_t_row { Verdict::Inconclusive("no-row-reached-the-join".into()) } else { Verdict::Violated(vec![Violation::new(format!("join|{}|no-error", fault), format!("{:?} printed {} rows instead of reporting an error", sql, out.rows.len()))]) },
+                Ok(out) => if fault == "missing-joiner-column" && (!any_t_row || sql.ends_with(" LIMIT 0")) { Verdict::Inconclusive("no-row-reached-the-join".into()) } else { Verdict::Violated(vec![Violation::new(format!("join|{}|no-error", fault), format!("{:?} printed {} rows instead of reporting an error", sql, out.rows.len()))]) },
             };
         }
 
